@@ -131,6 +131,12 @@ func scenario(name string, capa, fill int, rot uint32, want string, progs ...pro
 							var v int
 							fmt.Sscanf(o, "pushwaitT:%d", &v)
 							t.Op("push", v, func() any { return rg.PushWait(v, 15*time.Millisecond) })
+						case strings.HasPrefix(o, "pushwaitT5:"):
+							var v int
+							fmt.Sscanf(o, "pushwaitT5:%d", &v)
+							t.Op("push", v, func() any { return rg.PushWait(v, 5*time.Millisecond) })
+						case o == "popwaitT5":
+							t.Op("pop", 5, func() any { v, ok := rg.PopWait(5 * time.Millisecond); return popRes{v, ok} })
 						case o == "popwaitT":
 							t.Op("pop", 15, func() any { v, ok := rg.PopWait(15 * time.Millisecond); return popRes{v, ok} })
 						case o == "pop":
@@ -284,6 +290,10 @@ func main() {
 					scenario("timed/popwaitT-alone-empty", capa, 0, rot, "", prog{"popwaitT"}),
 					scenario("timed/pushwaitT|popwaitT", capa, capa, rot, "", prog{"pushwaitT:1"}, prog{"popwaitT"}),
 					scenario("timed/pushwaitT|popwaitT", capa, 0, rot, "", prog{"pushwaitT:1"}, prog{"popwaitT"}),
+					scenario("timed/popwaitT5-alone", capa, 1, rot, "", prog{"popwaitT5"}),
+					scenario("timed/pushwaitT5-alone", capa, capa-1, rot, "", prog{"pushwaitT5:1"}),
+					scenario("timed/pushwaitT5|popwaitT5", capa, capa, rot, "", prog{"pushwaitT5:1"}, prog{"popwaitT5"}),
+					scenario("timed/pushwaitT5|popwaitT5", capa, 0, rot, "", prog{"pushwaitT5:1"}, prog{"popwaitT5"}),
 				)
 			}
 		}
